@@ -492,8 +492,7 @@ theorem toLineColumn_spec (cap : Nat) (ix : LineIndex) (hw : WF ix) (c : Cache)
 
 /-! ### §7 to_offset, line_start, round trip, histories -/
 
-theorem toOffset_eq (text : List Byte) (line column : Nat)
-    (hg : ∀ s, Lines.lineStart text line = some s → s + column ≤ USIZE) :
+theorem toOffset_eq (text : List Byte) (htl : text.length ≤ U32_MAX) (line column : Nat) :
     LinesM.toOffset { starts := lineStarts text, textLen := text.length } line column =
       Lines.toOffset text line column := by
   unfold LinesM.toOffset Lines.toOffset
@@ -507,10 +506,13 @@ theorem toOffset_eq (text : List Byte) (line column : Nat)
     cases hs : Lines.lineStart text line with
     | none => rfl
     | some s =>
-      have := hg s hs
-      have he : ((s + column) % USIZE + (USIZE - 1)) % USIZE = s + column - 1 := by
-        unfold USIZE at *; omega
+      have he : s + (column - 1) = s + column - 1 := by omega
       simp only [he]
+      by_cases hlt : s + column - 1 < USIZE
+      · simp only [hlt, if_true]
+      · have : ¬ (s + column - 1 < text.length) := by
+          unfold USIZE at hlt; unfold U32_MAX at htl; omega
+        simp only [hlt, if_false, this]
 
 theorem lineStart_le_u32 (text : List Byte) (htl : text.length ≤ U32_MAX) (line s : Nat)
     (h : Lines.lineStart text line = some s) : s ≤ U32_MAX := by
@@ -525,7 +527,6 @@ theorem lineStart_le_u32 (text : List Byte) (htl : text.length ≤ U32_MAX) (lin
 def QueryOk : Query → Prop
   | .lineCol offset => offset + 1 < USIZE
   | .roundTrip offset => offset + 1 < USIZE
-  | .toOffset _ column => column + U32_MAX ≤ USIZE
   | _ => True
 
 theorem step_spec (cap : Nat) (text : List Byte) (htl : text.length ≤ U32_MAX) (c : Cache)
@@ -545,22 +546,13 @@ theorem step_spec (cap : Nat) (text : List Byte) (htl : text.length ≤ U32_MAX)
   | roundTrip offset =>
     obtain ⟨i, x, hp, h1, h2⟩ := toLineColumn_spec cap _ hw c hc offset hq
     have hsp := lineCol_of_isPred text offset i x hp
-    have hto := LinesP.toOffset_eq text (i + 1) (offset - x + 1) (by
-      intro s hs
-      have : Lines.lineStart text (i + 1) = some x := by
-        simp [Lines.lineStart]; exact hp.1
-      rw [this] at hs; simp only [Option.some.injEq] at hs; subst hs
-      have := hp.2.1
-      simp only [QueryOk] at hq; omega)
+    have hto := LinesP.toOffset_eq text htl (i + 1) (offset - x + 1)
     simp only [step, h1, specAnswer, hsp, hto]
     exact ⟨trivial, h2⟩
   | toOffset line column =>
     refine ⟨?_, hc⟩
     simp only [step, specAnswer]
-    rw [LinesP.toOffset_eq]
-    intro s hs
-    have := lineStart_le_u32 text htl line s hs
-    simp only [QueryOk] at hq; omega
+    rw [LinesP.toOffset_eq text htl]
   | lineStart line =>
     refine ⟨?_, hc⟩
     simp [step, specAnswer, LinesM.lineStart, Lines.lineStart, efGet]
